@@ -62,7 +62,11 @@ def expected_of(desc, defs, files, run_dir=None, src='inst', probe_kind='name'):
 
 
 def matches(exp, d):
-    if d['name'] != exp['name'] or d['type'] != exp['type']:
+    if d['name'] != exp['name']:
+        return False
+    if d['type'] != exp['type'] and not (exp['type'] == 'module' and d['type'] == 'namespace'):
+        # (a directory without __init__.py is a module object at run time and a `namespace`
+        # in jedi's documented Name.type vocabulary)
         return False
     if exp.get('builtin'):
         return d['builtin']
